@@ -171,6 +171,42 @@ def tagsOKFields : Fields → Bool
   | .cons name tag t rest => tagNoPanic name tag && tagsOK t && tagsOKFields rest
 end
 
+theorem NP_recLookup (unk : Bool) : ∀ (ch : List Obj) (k : Str), NP (recLookup unk ch k)
+  | [], k => by unfold recLookup; split <;> simp [NP]
+  | cur :: parents, k => by
+    unfold recLookup
+    have ih := NP_recLookup unk parents k
+    split
+    · exact ih
+    · split
+      · rename_i e he; rw [he] at ih; simpa [NP] using ih
+      · split <;> simp [NP]
+      · simp [NP]
+    · simp [NP]
+
+theorem NP_chainedLookup (unk : Bool) : ∀ (keys : List Str) (ch : List Obj), NP (chainedLookup unk keys ch)
+  | [], ch => by simp [chainedLookup, NP]
+  | [k], ch => by simpa [chainedLookup] using NP_recLookup unk ch k
+  | k :: k2 :: rest, ch => by
+    unfold chainedLookup
+    have h1 := NP_recLookup unk ch k
+    split
+    · rename_i e he; rw [he] at h1; simpa [NP] using h1
+    · exact NP_chainedLookup unk (k2 :: rest) _
+    · simp [NP]
+
+theorem NP_lookupKey (c : Cfg) (key : Str) (m : Obj) : NP (lookupKey c key m) := by
+  unfold lookupKey
+  split
+  · simp [NP]
+  · unfold dottedLookup
+    split
+    · simp [NP]
+    · simp [NP]
+    · split
+      · exact NP_chainedLookup _ _ _
+      · simp [NP]
+
 theorem NP_fieldCore {c : Cfg} {name : Str} {tag : Option Str} {isSlice : Bool} {m : Obj}
     {wv : Option Opts → J → Except Err Val} {ar : Unit → Except Err Val} {dv : Str → Except Err Val} {z : Val}
     (hc : c.pinned = false) (ht : tagNoPanic name tag = true)
@@ -198,17 +234,23 @@ theorem NP_fieldCore {c : Cfg} {name : Str} {tag : Option Str} {isSlice : Bool} 
       simp only
       split; · simp [NP]
       split; · simp [NP]
-      split; · simp [NP]
-      split
-      · split
-        · exact hdv _
-        · split
-          · simp [NP]
-          · exact har
-      · simp only [hc, Bool.false_and, Bool.false_eq_true, if_false]
-        split
-        · split <;> simp [NP]
-        · exact hwv _ _
+      have hl := NP_lookupKey c key m
+      cases hlk : lookupKey c key m with
+      | error e => rw [hlk] at hl; simpa [NP] using hl
+      | ok lk =>
+        cases lk with
+        | none =>
+          simp only
+          split
+          · exact hdv _
+          · split
+            · simp [NP]
+            · exact har
+        | some j0 =>
+          simp only [hc, Bool.false_and, Bool.false_eq_true, if_false]
+          split
+          · split <;> simp [NP]
+          · exact hwv _ _
 
 theorem NP_structRequired : ∀ fs : Fields, tagsOKFields fs = true → NP (structRequired fs)
   | .nil, _ => by simp [NP, structRequired]
@@ -274,14 +316,14 @@ theorem NP_withValue (c : Cfg) (hc : c.pinned = false) :
   | .slice t, o, j, h => by
     unfold withValue
     split
-    · exact NP_slice fun j => NP_elemValue c hc t j (by simpa [tagsOK] using h)
+    · exact NP_slice fun j => NP_elemValue c.top (Cfg.top_pinned hc) t j (by simpa [tagsOK] using h)
     · simp [NP]
     · simp [NP]
     · simp [NP]
   | .map t, o, j, h => by
     unfold withValue
     split
-    · exact NP_map _ (NP_mapEntries (fun j => NP_mapElemValue c hc t j (by simpa [tagsOK] using h)) _)
+    · exact NP_map _ (NP_mapEntries (fun j => NP_mapElemValue c.top (Cfg.top_pinned hc) t j (by simpa [tagsOK] using h)) _)
     · simp [NP]
     · simp [NP]
     · simp [NP]
@@ -306,12 +348,12 @@ theorem NP_elemValue (c : Cfg) (hc : c.pinned = false) :
   | .slice t, j, h => by
     unfold elemValue
     split
-    · exact NP_slice fun j => NP_elemValue c hc t j (by simpa [tagsOK] using h)
+    · exact NP_slice fun j => NP_elemValue c.top (Cfg.top_pinned hc) t j (by simpa [tagsOK] using h)
     · simp [NP]
   | .map t, j, h => by
     unfold elemValue
     split
-    · exact NP_map _ (NP_mapEntries (fun j => NP_mapElemValue c hc t j (by simpa [tagsOK] using h)) _)
+    · exact NP_map _ (NP_mapEntries (fun j => NP_mapElemValue c.top (Cfg.top_pinned hc) t j (by simpa [tagsOK] using h)) _)
     · simp [NP]
     · simp [NP]
     · simp [NP]
@@ -336,13 +378,13 @@ theorem NP_mapElemValue (c : Cfg) (hc : c.pinned = false) :
   | .slice t, j, h => by
     unfold mapElemValue
     split
-    · exact NP_slice fun j => NP_elemValue c hc t j (by simpa [tagsOK] using h)
+    · exact NP_slice fun j => NP_elemValue c.top (Cfg.top_pinned hc) t j (by simpa [tagsOK] using h)
     · simp [NP, hc]
     · simp [NP]
   | .map t, j, h => by
     unfold mapElemValue
     split
-    · exact NP_map _ (NP_mapEntries (fun j => NP_mapElemValue c hc t j (by simpa [tagsOK] using h)) _)
+    · exact NP_map _ (NP_mapEntries (fun j => NP_mapElemValue c.top (Cfg.top_pinned hc) t j (by simpa [tagsOK] using h)) _)
     · simp [NP]
 theorem NP_absentRequired (c : Cfg) (hc : c.pinned = false) :
     ∀ (t : Ty), tagsOK t = true → NP (absentRequired c t)
@@ -359,7 +401,7 @@ theorem NP_absentRequired (c : Cfg) (hc : c.pinned = false) :
     | ok b =>
       cases b with
       | true => simp [NP]
-      | false => exact NP_map _ (NP_unmFields c hc fs _ (by simpa [tagsOK] using h))
+      | false => exact NP_map _ (NP_unmFields c.top (Cfg.top_pinned hc) fs _ (by simpa [tagsOK] using h))
   | .slice _, _ => by simp [NP, absentRequired]
   | .map _, _ => by simp [NP, absentRequired]
 theorem NP_unmFields (c : Cfg) (hc : c.pinned = false) :
@@ -371,8 +413,8 @@ theorem NP_unmFields (c : Cfg) (hc : c.pinned = false) :
     obtain ⟨⟨h1, h2⟩, h3⟩ := h
     unfold unmFields
     have hf := NP_fieldCore (c := c) (name := name) (tag := tag) (isSlice := t.isSlice) (m := m)
-      (wv := fun o j => withValue c o t j) (ar := fun _ => absentRequired c t) (dv := defaultVal c t) (z := zero t)
-      hc h1 (fun o j => NP_withValue c hc t o j h2) (NP_absentRequired c hc t h2) (NP_defaultVal c hc t)
+      (wv := fun o j => withValue c.nest o t j) (ar := fun _ => absentRequired c t) (dv := defaultVal c t) (z := zero t)
+      hc h1 (fun o j => NP_withValue c.nest (Cfg.nest_pinned hc) t o j h2) (NP_absentRequired c hc t h2) (NP_defaultVal c hc t)
     have hr := NP_unmFields c hc rest m h3
     unfold NP at *
     intro h
